@@ -319,7 +319,11 @@ impl Generator {
         crate::verif_oracle::fault("after_ninja_flushed");
         let build_dir = self.build_dir.clone();
         let result = GenerateResult::new(self, builds, treestate);
-        result.to_cache(&build_dir)?;
+        if load_stats.changed_while_loading {
+            println!("laze: build files changed while they were read, not writing cache");
+        } else {
+            result.to_cache(&build_dir)?;
+        }
         #[cfg(kaspar030_laze_verif)]
         crate::verif_oracle::fault("after_cache_written");
         Ok(result)
